@@ -90,3 +90,79 @@ Lemma missing_file_skipped d f a :
   do_entry d f a = Ok ([], [WMissing (file_path cwd (filedir cwd rootdir d) f)]).
 Proof. intros H1 H2. unfold Model.C13.do_entry. rewrite H1, H2. reflexivity. Qed.
 End DB.
+
+(* ---------- only files named by entries come out ---------- *)
+Section Named.
+Variable fs : fsys.
+Variable cwd rootdir : str.
+
+Lemma validated_In es v d f a :
+  validated es = Some v -> In (d, f, a) v ->
+  exists e, In e es /\ e_dir e = d /\ e_file e = f /\ e_argv e = Some a.
+Proof.
+  revert v. induction es as [|e es IH]; intros v H I; cbn in H.
+  - inversion H; subst. destruct I.
+  - destruct (e_argv e) as [a'|] eqn:Ea; [|discriminate].
+    destruct (validated es) as [t|]; [|discriminate]. inversion H; subst.
+    destruct I as [I|I].
+    + inversion I; subst. exists e. repeat split; [left; reflexivity|exact Ea].
+    + destruct (IH t eq_refl I) as (e' & He & R). exists e'. split; [right; exact He|exact R].
+Qed.
+
+Lemma with_files_In v l d f a :
+  with_files v = Some l -> In (d, f, a) l -> In (d, Some f, a) v.
+Proof.
+  revert l. induction v as [|[[d' f'] a'] v IH]; intros l H I; cbn in H.
+  - inversion H; subst. destruct I.
+  - destruct f' as [f'|]; [|discriminate].
+    destruct (with_files v) as [t|]; [|discriminate]. inversion H; subst.
+    destruct I as [I|I].
+    + inversion I; subst. left. reflexivity.
+    + right. apply (IH t eq_refl I).
+Qed.
+
+Lemma do_entry_outputs d f a o w x :
+  do_entry fs cwd rootdir d f a = Ok (o, w) -> In x o ->
+  o_file x = file_path cwd (filedir cwd rootdir d) f /\
+  exists incs, extract_incs (tl a) = Ok incs /\ o_incs x = map (inc_path cwd (filedir cwd rootdir d)) incs.
+Proof.
+  unfold do_entry. destruct (negb (is_supported f a)); [intro H; inversion H; subst; intros []|].
+  destruct (negb (os_path_exists _ _ _)); [intro H; inversion H; subst; intros []|].
+  destruct (extract_incs (tl a)) as [incs|]; [|discriminate].
+  intro H. inversion H; subst. intros [<-|[]]. split; [reflexivity|]. exists incs. split; reflexivity.
+Qed.
+
+Lemma loop_outputs l o w x :
+  loop fs cwd rootdir l = Ok (o, w) -> In x o ->
+  exists d f a, In (d, f, a) l /\
+    o_file x = file_path cwd (filedir cwd rootdir d) f /\
+    exists incs, extract_incs (tl a) = Ok incs /\ o_incs x = map (inc_path cwd (filedir cwd rootdir d)) incs.
+Proof.
+  revert o w. induction l as [|[[d f] a] l IH]; intros o w H I; cbn in H.
+  - inversion H; subst. destruct I.
+  - destruct (do_entry fs cwd rootdir d f a) as [[o1 w1]|] eqn:D; [|discriminate].
+    destruct (loop fs cwd rootdir l) as [[o2 w2]|] eqn:L; [|discriminate].
+    inversion H; subst. apply in_app_or in I. destruct I as [I|I].
+    + exists d, f, a. split; [left; reflexivity|]. eapply do_entry_outputs; eassumption.
+    + destruct (IH o2 w2 eq_refl I) as (d' & f' & a' & In' & R).
+      exists d', f', a'. split; [right; exact In'|exact R].
+Qed.
+
+Lemma only_named_files es o w x :
+  load_database fs cwd rootdir es = Ok (o, w) -> In x o ->
+  exists e f a, In e es /\ e_file e = Some f /\ e_argv e = Some a /\
+    o_file x = file_path cwd (filedir cwd rootdir (e_dir e)) f /\
+    exists incs, extract_incs (tl a) = Ok incs /\
+      o_incs x = map (inc_path cwd (filedir cwd rootdir (e_dir e))) incs.
+Proof.
+  unfold load_database.
+  destruct (validated es) as [v|] eqn:V; [|discriminate].
+  destruct (with_files v) as [l|] eqn:F; [|discriminate].
+  destruct (loop fs cwd rootdir l) as [[o' w']|] eqn:L; [|discriminate].
+  intro H. inversion H; subst. intro I.
+  destruct (loop_outputs l o w' x L I) as (d & f & a & Il & R).
+  pose proof (with_files_In v l d f a F Il) as Iv.
+  destruct (validated_In es v d (Some f) a V Iv) as (e & Ie & Ed & Ef & Ea).
+  exists e, f, a. subst d. repeat split; try assumption; apply R.
+Qed.
+End Named.
